@@ -30,7 +30,9 @@ class _Loop06(LoopCheck):
     flows = ("plain",)
 
     thorough_schedules = ["fixed1", "fixed2", "fixed4", "adaptive_half", "adaptive_cap2", "adaptive_free"]
-    adaptive_N3 = ("adaptive_half", "adaptive_cap2", "adaptive_free")
+    # N = 3 multiplies the bisection paths per iteration; the first complete thorough run
+    # spent 55 minutes in single subtrees of adaptive_cap2 / adaptive_free at N = 3
+    adaptive_N3 = ("adaptive_half",)
 
     def schedules(self, tier):
         return super().schedules(tier) + ["fixed4_cap2"]
